@@ -177,6 +177,9 @@ def serialize(cfg: dict, stmts: list, ns: list | None = None) -> bytes:
             raise ValueError(entry)
     else:
         conv = T.stmt_to_rdflib
+        if cfg.get("plain_tuples"):
+            # statements as PLAIN tuples (what Graph.triples()/Dataset.quads() yield), not pyjelly's Triple/Quad classes
+            conv = lambda st: tuple(T.stmt_to_rdflib(st))  # noqa: E731
         if entry == "graph_serialize":
             store = rdflib_store_of(stmts, ns, dataset=cfg.get("store_dataset", cfg["physical"] != 1), empty_graphs=cfg.get("empty_graphs"))
             options = make_options(cfg)
@@ -202,9 +205,9 @@ def serialize(cfg: dict, stmts: list, ns: list | None = None) -> bytes:
             store.serialize(out, format="jelly", options=make_options(cfg))
         elif entry == "flat_to_file":
             assert delimited
-            rser.flat_stream_to_file((conv(s) for s in stmts), out, options=make_options(cfg))
+            rser.flat_stream_to_file((conv(s) for s in stmts), out, options=None if cfg.get("no_options") else make_options(cfg))
         elif entry == "flat_frames":
-            frames = rser.flat_stream_to_frames((conv(s) for s in stmts), options=make_options(cfg))
+            frames = rser.flat_stream_to_frames((conv(s) for s in stmts), options=None if cfg.get("no_options") else make_options(cfg))
             write_frames(frames, out, delimited, cfg.get("collect", False))
         elif entry == "grouped_to_file":
             assert delimited
